@@ -173,7 +173,9 @@ func pauseDecisionBeforeReturnRule(c *Ctx) {
 			}
 			last := rc.Results[len(rc.Results)-1]
 			mayBeNil := false
-			for _, pv := range p.possibleValues(last) {
+			// judged under the facts of the return: `if err != nil { return …, err }` on the merged
+			// error of a multi-return helper does not return nil
+			for _, pv := range p.pfPossibleValuesUnder(last, rc.Facts) {
 				if isNilConst(pv) {
 					mayBeNil = true
 				}
